@@ -10,6 +10,8 @@ package main
 
 import (
 	"bufio"
+	"crypto/tls"
+	"errors"
 	"fmt"
 	"net"
 	"os"
@@ -53,7 +55,10 @@ func serveUpstream(l net.Listener) {
 				}
 			}
 			if strings.HasPrefix(first, "CONNECT ") {
-				fmt.Fprintf(c, "HTTP/1.1 200 OK\r\n\r\n")
+				// the marker tells a client that its bytes reach this upstream through a tunnel
+				fmt.Fprintf(c, "HTTP/1.1 200 OK\r\n\r\nTUNNELLED\n")
+				buf := make([]byte, 512)
+				c.Read(buf)
 				return
 			}
 			fmt.Fprintf(c, "HTTP/1.1 200 OK\r\nContent-Length: 2\r\nConnection: close\r\n\r\nUP")
@@ -107,6 +112,19 @@ func startForwarder(bin, upstream string, extra []string) (addr string, stop fun
 	return "", nil, false, fmt.Errorf("forwarder did not start listening in three attempts (flags %q)", extra)
 }
 
+// aloneForms: Go's regexp verdict of every rule alone, for each given form of the host name
+func aloneForms(alone []*regexp.Regexp, forms []string) string {
+	var per []string
+	for _, f := range forms {
+		var al []string
+		for _, re := range alone {
+			al = append(al, coqfmt.Bool(re.MatchString(f)))
+		}
+		per = append(per, coqfmt.List("bool", al))
+	}
+	return coqfmt.List("(list bool)", per)
+}
+
 type target struct {
 	Authority string `json:"authority"` // what goes into the request target
 	Bare      string `json:"bare"`      // the host name the rules are about
@@ -152,6 +170,7 @@ func genTargets(r *rng.R, n int) []target {
 	add("["+v6+"]", v6, false)
 	add("["+v6+"]:8080", v6, false)
 	add("["+v6+"]:443", v6, true)
+	add("foo.test.", "foo.test.", false)
 	for len(out) < n {
 		h := r.Pick(e2eNames)
 		switch r.Intn(4) {
@@ -266,14 +285,12 @@ func runE2ECase(bin string, c e2eCase) (string, map[string]int, error) {
 			stats[fmt.Sprintf("status-%d", code)]++
 			continue // neither verdict (e.g. the request itself was rejected): not an observation
 		}
-		var al []string
-		for _, re := range alone {
-			al = append(al, coqfmt.Bool(re.MatchString(t.Bare)))
-		}
-		obs = append(obs, fmt.Sprintf("(%s, %s, %s)", coqfmt.Str(t.Bare), coqfmt.List("bool", al), coqfmt.Bool(code == 403)))
+		// the reference judges a fully qualified name with and without its trailing dot
+		obs = append(obs, fmt.Sprintf("(%s, %s, %s)", coqfmt.Str(t.Bare),
+			aloneForms(alone, []string{t.Bare, strings.TrimSuffix(t.Bare, ".")}), coqfmt.Bool(code == 403)))
 	}
-	return fmt.Sprintf("{| uc_entries := %s; uc_obs := %s |}", coqfmt.List("(bool * rx)", ents),
-		coqfmt.List("(str * list bool * bool)", obs)), stats, nil
+	return fmt.Sprintf("{| uc_site := 0; uc_entries := %s; uc_obs := %s |}", coqfmt.List("(bool * rx)", ents),
+		coqfmt.List("(str * list (list bool) * bool)", obs)), stats, nil
 }
 
 // ---------------------------------------------------------------- two lists at once
@@ -474,4 +491,116 @@ func runRouteCase(bin string, c routeCase) (string, map[string]int, error) {
 	}
 	return fmt.Sprintf("{| vc_deny := %s; vc_direct := %s; vc_started := %s; vc_obs := %s |}", coqfmt.List("(bool * rx)", eDeny),
 		coqfmt.List("(bool * rx)", eDirect), coqfmt.Bool(up), coqfmt.List("(str * list bool * list bool * N)", obs)), stats, nil
+}
+
+// ---------------------------------------------------------------- mitm-domains
+
+// probeMITM sends CONNECT authority and then a TLS ClientHello: 1 = the proxy itself answered the handshake
+// (intercepted), 2 = the bytes went through a tunnel to the upstream (its marker came back), 9 = anything else
+func probeMITM(proxyAddr string, t target) int {
+	c, err := net.DialTimeout("tcp", proxyAddr, 2*time.Second)
+	if err != nil {
+		return 9
+	}
+	defer c.Close()
+	c.SetDeadline(time.Now().Add(8 * time.Second))
+	fmt.Fprintf(c, "CONNECT %s HTTP/1.1\r\nHost: %s\r\n\r\n", t.Authority, t.Authority)
+	br := bufio.NewReader(c)
+	line, err := br.ReadString('\n')
+	if err != nil || !strings.HasPrefix(line, "HTTP/1.1 200") {
+		return 9
+	}
+	for {
+		l, err := br.ReadString('\n')
+		if err != nil {
+			return 9
+		}
+		if strings.TrimRight(l, "\r\n") == "" {
+			break
+		}
+	}
+	tc := tls.Client(&bufferedConn{Conn: c, r: br}, &tls.Config{InsecureSkipVerify: true, ServerName: "probe.invalid"}) //nolint:gosec // the probe only asks who answers
+	err = tc.Handshake()
+	if err == nil {
+		return 1
+	}
+	var rhe tls.RecordHeaderError
+	if errors.As(err, &rhe) && string(rhe.RecordHeader[:]) == "TUNNE" {
+		return 2
+	}
+	return 9
+}
+
+type bufferedConn struct {
+	net.Conn
+	r *bufio.Reader
+}
+
+func (b *bufferedConn) Read(p []byte) (int, error) { return b.r.Read(p) }
+
+func genMITMCase(r *rng.R, i int) e2eCase {
+	c := genE2ECase(r, i+3) // lists from the same pool as deny-domains (random part)
+	if i == 0 {
+		c.Entries = []entry{{false, lit2("foo")}, {true, lit2("foo.test.")}, {false, e2eRulePool()[3]}}
+	}
+	var ts []target
+	v6 := r.Pick(e2eV6)
+	ts = append(ts, target{"[" + v6 + "]:443", v6, true}, target{"[2001:db8::1]:443", "2001:db8::1", true})
+	for len(ts) < 7 {
+		h := r.Pick(e2eNames)
+		ts = append(ts, target{h + ":" + r.Pick([]string{"443", "8443"}), h, true})
+	}
+	c.Targets = ts
+	return c
+}
+
+// runMITMCase: --mitm with --mitm-domains; which CONNECTs are intercepted, which are tunnelled
+func runMITMCase(bin string, c e2eCase) (string, map[string]int, error) {
+	stats := map[string]int{}
+	l, err := net.Listen("tcp", "127.0.0.1:0")
+	if err != nil {
+		return "", nil, err
+	}
+	defer l.Close()
+	go serveUpstream(l)
+	args := []string{"--mitm"}
+	var alone []*regexp.Regexp
+	var ents []string
+	for _, e := range c.Entries {
+		t := Text(e.Rule)
+		re, ok := tryCompile(t)
+		if !ok {
+			return "", nil, fmt.Errorf("e2e rule %q does not compile", t)
+		}
+		alone = append(alone, re)
+		if e.Exclude {
+			t = "-" + t
+		}
+		args = append(args, "--mitm-domains="+t)
+		ents = append(ents, fmt.Sprintf("(%s, %s)", coqfmt.Bool(e.Exclude), Coq(e.Rule)))
+	}
+	addr, stop, refused, err := startForwarder(bin, l.Addr().String(), args)
+	if err != nil {
+		return "", nil, err
+	}
+	if refused {
+		return "", nil, fmt.Errorf("forwarder refuses the flags %q", args)
+	}
+	defer stop()
+	var obs []string
+	for _, t := range c.Targets {
+		code := probeMITM(addr, t)
+		switch code {
+		case 1:
+			stats["intercepted"]++
+		case 2:
+			stats["tunnelled"]++
+		default:
+			stats["other"]++
+			continue
+		}
+		obs = append(obs, fmt.Sprintf("(%s, %s, %s)", coqfmt.Str(t.Bare), aloneForms(alone, []string{t.Bare}), coqfmt.Bool(code == 1)))
+	}
+	return fmt.Sprintf("{| uc_site := 2; uc_entries := %s; uc_obs := %s |}", coqfmt.List("(bool * rx)", ents),
+		coqfmt.List("(str * list (list bool) * bool)", obs)), stats, nil
 }
